@@ -57,4 +57,12 @@ CHECKS = {
         "and that bcrypt forwards the unchanged UTF-8 bytes; 4096/4097 size limit checked on every registered hasher (finite).",
    note="Trusted: z3; the DES block function is replaced by a recorder (C11 covers it). Outside: lmhash/cisco formats' digest "
         "input (C02), libxcrypt."),
+ "C11": dict(engine="E1-zshadow", category="translation_validation", design_ref="DESIGN.md §4 C11",
+   technique="symbolic execution of the real primitives + z3 equivalence with transcriptions of the standards (per-round lemmas, cut points from the current source)",
+   text="DES: abstraction derived from the real prologue, double-round body == 2 FIPS Feistel rounds for all states/subkeys/24-bit "
+        "salts, key schedule == PC1/shifts/PC2, FP epilogue, loop glue; Salsa20/8 and the MD4 compression function for all inputs; "
+        "MD4 padding/splitting/copy for every length; Blowfish encipher (base+unrolled) for all l,r,P,S, key-schedule order with "
+        "encipher uninterpreted, P/S == digits of pi; scrypt BlockMix/ROMix (N<=8/16) incl. Integerify; HMAC/PBKDF1 vs RFC 2104/2898.",
+   note="Trusted: z3; reference transcriptions (validated on published vectors each run); struct model. Outside: SASLprep, whole-run "
+        "bcrypt key schedule at real cost, unrolled Blowfish key expansion as a whole, scrypt N>16, hashlib digests."),
 }
